@@ -710,13 +710,13 @@ def run(ctx):
         for f in sorted(cdir.glob("*.json")):
             cases.append(case_from_json(json.loads(f.read_text())))
     n_corpus = len(cases)
-    for _ in range(ctx.scale(70, 700)):
+    for _ in range(ctx.scale(150, 2000)):
         cases.append(gen_eval_case(rng))
-    for _ in range(ctx.scale(15, 150)):
+    for _ in range(ctx.scale(30, 400)):
         cases.append(gen_eval_case(rng, csv_stream=True))
-    for _ in range(ctx.scale(40, 600)):
+    for _ in range(ctx.scale(80, 1500)):
         cases.append(gen_fake_case(rng))
-    for _ in range(ctx.scale(120, 1500)):
+    for _ in range(ctx.scale(250, 4000)):
         cases.append(gen_table_case(rng))
     n_viol = 0
     for ci, case in enumerate(cases):
@@ -752,7 +752,21 @@ def replay(path):
     print("case:", bucket)
     if case["kind"] == "table":
         print("cells:", case["cells"])
-    print("model (engine op %d):" % triple[0], json.dumps(triple[2])[:1500])
+    out = triple[2]
+    if triple[0] == 1801:
+        print("model: keys_ok =", bool(out[0]))
+        for r in out[1][:1]:
+            print("model header:", [dec_name(c) for c in r])
+        for r in out[1][1:]:
+            print("model row   :", [dec_name(r[0])] + [("" if c == [] else dec_name(c) if c[:1] != [35] else float(Fraction(c[1], c[2]))) for c in r[1:]])
+        ld = dec_stat(out[2])
+    else:
+        ld = dec_stat(out)
+    print("model load  :", ld[:4] if ld[0] == "ok" else ld)
+    if ld[0] == "ok":
+        for g in ld[2]:
+            for m in ld[3]:
+                print(f"   ({g!r}, {m!r}) ->", [None if v is None else float(v) for v in ld[4][g][m]])
     for what, extra in vio:
         print("PROPERTY FAILS ON THE IMPLEMENTATION:", what)
     for t in dis:
